@@ -65,12 +65,12 @@ func readFrameOfType(fType byte, reader *bufio.Reader, isTCP bool) (frame, error
 		if err != nil {
 			return nil, err
 		}
-		length := binary.BigEndian.Uint16(peeked) + 2 // +2 to include the length bytes
+		length := int(binary.BigEndian.Uint16(peeked)) + 2 // +2 to include the length bytes (int: must not wrap at 65534)
 
 		// actual data
 		data = make([]byte, length)
 		var n int
-		for read := 0; read < int(length) && err == nil; {
+		for read := 0; read < length && err == nil; {
 			n, err = reader.Read(data[read:])
 			read += n
 		}
